@@ -827,9 +827,13 @@ bool varintBP128IsSorted64(const uint64_t *values, size_t count) {
 }
 
 size_t varintBP128GetCount(const uint8_t *src, size_t srcBytes) {
-    (void)srcBytes;
     uint64_t count;
-    varintTaggedGet64(src, &count);
+    /* The count header is a tagged varint of at most 9 bytes; never look
+     * beyond the srcBytes the caller says are there. */
+    if (varintTaggedGet(src, srcBytes > 9 ? 9 : (int32_t)srcBytes, &count) ==
+        0) {
+        return 0; /* Truncated input */
+    }
     return (size_t)count;
 }
 
